@@ -174,7 +174,15 @@ def h_multi(ctx):
     given = (copy.deepcopy(prot), None, [copy.deepcopy(r[0]) for r in recs], aad)
     ctxs = f"mix={[MIX_KINDS[i][0] for i in mix]} enc={enc} aad={aad} zip={zipv}"
     tag = f"general JSON, {n} recipients"
-    r = scen.jwe_encrypt("general", prot, plaintext, None, algs, aad=aad, recipients=recs)
+    # the encrypting side attaches a key to every recipient - or to some, and hands a key set over for the rest (resolved by the kid in their header)
+    attached = ctx.deviate("keys_attached_to", ["every recipient", "the first recipient only", "all but the first recipient"])
+    if attached != "every recipient":
+        rest = KeySet([rc[1] for j, rc in enumerate(recs) if (j > 0) == (attached == "the first recipient only")])
+        recs = [rc if (j == 0) == (attached == "the first recipient only") else (rc[0], None) + tuple(rc[2:]) for j, rc in enumerate(recs)]
+        ctxs += f" keys attached to {attached}"
+        r = scen.jwe_encrypt("general", prot, plaintext, None, algs, aad=aad, recipients=recs, key_for_the_rest=rest)
+    else:
+        r = scen.jwe_encrypt("general", prot, plaintext, None, algs, aad=aad, recipients=recs)
     vs = []
     if not r.ok:
         return Outcome("encrypt-failed", [viol(f"encryption fails: {tag}", f"{ctxs}: {r.exc!r}")], nontrivial=("multi", mix, enc))
@@ -216,7 +224,7 @@ def h_multi(ctx):
                 vs.append(viol(f"reference decrypts to a different plaintext: {tag}", f"{ctxs} recipient {j}"))
         except RefError as e:
             vs.append(viol(f"independent implementation cannot decrypt for one recipient: {tag}", f"{ctxs} recipient {j} ({MIX_KINDS[mix[j]][0]}): {e!r}"))
-    return Outcome(f"{'ok' if not vs else 'bad'}:multi{n}", vs, nontrivial=("multi", mix, enc, aad, zipv, held))
+    return Outcome(f"{'ok' if not vs else 'bad'}:multi{n}", vs, nontrivial=("multi", mix, enc, aad, zipv, held, attached))
 
 
 def h_forbidden(ctx):
